@@ -109,6 +109,15 @@ protected:
 
 public:
 
+   /// attaches this scaler to an LP that is already scaled (e.g., a copy of a scaled LP): the scaling exponents stored
+   /// in \p lp are kept and become the active ones, and \p lp refers to this scaler for unscaling
+   void attach(SPxLPBase<R>& lp)
+   {
+      m_activeColscaleExp = &lp.LPColSetBase<R>::scaleExp;
+      m_activeRowscaleExp = &lp.LPRowSetBase<R>::scaleExp;
+      lp.lp_scaler = this;
+   }
+
    /// compute a single scaling vector , e.g. of a newly added row
    virtual int computeScaleExp(const SVectorBase<R>& vec, const DataArray<int>& oldScaleExp) const;
 
